@@ -103,6 +103,9 @@ class P_discus(StructureParser):
                     break
                 rp = record_parsers.get(words[0], self._parse_unknown_record)
                 rp(words)
+            else:
+                emsg = "%d: atoms record not found" % self.nl
+                raise StructureFormatError(emsg)
             # check if cell has been defined
             if not self.cell_read:
                 emsg = "%d: unit cell not defined" % self.nl
